@@ -339,6 +339,8 @@ func libModSet(vc *VC, callee *ssa.Function, c *ssa.CallCommon) (map[string]bool
 		return map[string]bool{"E_uint8": true}, true
 	case strings.HasPrefix(k, "binary.(bigEndian)."), strings.HasPrefix(k, "binary.(littleEndian)."):
 		return map[string]bool{}, true
+	case strings.HasPrefix(k, "slices.Contains"):
+		return map[string]bool{}, true
 	case k == "errors.New", k == "fmt.Errorf", k == "fmt.Sprintf", k == "errors.Is", k == "time.Now", k == "time.Since":
 		return map[string]bool{}, true
 	}
@@ -349,6 +351,18 @@ func (fr *Frame) libModel(callee *ssa.Function, args []Val, rt types.Type, pos t
 	vc := fr.vc
 	k := funcKey(callee)
 	one := func(t string) (Val, bool) { return Val{Typ: rt, L: []string{t}}, true }
+	if strings.HasPrefix(k, "slices.Contains") && len(args) == 2 && len(args[1].L) == 1 && args[0].Typ != nil {
+		// slices.Contains(s, v) over scalar elements: some element of s equals v
+		if st, ok := args[0].Typ.Underlying().(*types.Slice); ok && len(vc.shape(st.Elem())) == 1 {
+			s, v := args[0], args[1]
+			fam := "E_" + vc.typeName(st.Elem())
+			vc.family(fam, famSortFor(vc.shape(st.Elem())[0].Sort, 2))
+			arr := "(select " + vc.lookup(fr.cur.heap, fam) + " " + s.L[0] + ")"
+			j := q(vc.freshName("j"))
+			r := vc.define("contains", "Bool", "(exists (("+j+" Int)) (and (<= 0 "+j+") (< "+j+" "+s.L[2]+") (= (select "+arr+" (+ "+s.L[1]+" "+j+")) "+v.T()+")))")
+			return one(r)
+		}
+	}
 	switch k {
 	case "binary.(bigEndian).Uint16", "binary.(bigEndian).Uint32", "binary.(bigEndian).Uint64",
 		"binary.(littleEndian).Uint16", "binary.(littleEndian).Uint32", "binary.(littleEndian).Uint64":
